@@ -14,6 +14,14 @@
     keysSane      a `path:channel` key never looks like a `::alias`.
   Tie to /repo: the correspondence run drives the real role/class unmarshallers,
   GenerateTaskDescriptors, makeTaskForMesosResources and configureTasks.
+
+  Last section: workflows with ITERATORS (targets and aliases are expressions; one
+  generated role per value of a range): `expand` — each generated role resolves its
+  OWN copy of the declarations against its OWN variables — and the theorems that
+  instance i's declarations are the template instantiated with i's variables,
+  independent of the sibling instances and of the order in which roles are processed;
+  tie: the correspondence run loads rendered templates with the real ProcessTemplates
+  under all settings of the loader's concurrency switches.
 -/
 import ControlModel.Proofs.Channels
 
@@ -446,4 +454,138 @@ example :
       [ [("data", ⟨.bind, "tcp://*:9000", .zeromq⟩), ("mon", ⟨.bind, "ipc://@o2ipc-%0", .shmem⟩)],
         [("in", ⟨.connect, "tcp://flp1:9000", .zeromq⟩), ("m", ⟨.connect, "ipc://@o2ipc-%0", .shmem⟩),
          ("x", ⟨.connect, "tcp://elsewhere:1", .nanomsg⟩)] ] := by
+  decide
+
+/-! ## workflows with iterators: every generated role resolves its own copy in its own context -/
+
+/-- An iterator contributes, for every value `x` of its range and in range order, exactly the
+    task declarations of its body loaded with the iteration variable bound to `x` — nothing of
+    what instance `x` declares depends on another value of the range. -/
+theorem C13_instance_own_variables (c : Ctx) (v : String) (vals : List String) (body next : TForest)
+    (pfx : String) (inhB : List Inbound) (inhC : List Outbound) :
+    flatten pfx inhB inhC (expand c (.iter v vals body next)) =
+      vals.flatMap (fun x => flatten pfx inhB inhC (expand (c.push v x) body)) ++
+        flatten pfx inhB inhC (expand c next) := by
+  simp only [expand, flatten_append, flatten_foldr_append]
+
+/-- …so instance `x` of a range of any length is wired exactly as if `x` were the ONLY
+    iteration (the single-host deployment): the declarations of sibling instances are independent. -/
+theorem C13_instance_independent_of_siblings (c : Ctx) (v : String) (vals : List String) (body : TForest)
+    (pfx : String) (inhB : List Inbound) (inhC : List Outbound) :
+    flatten pfx inhB inhC (expand c (.iter v vals body .nil)) =
+      vals.flatMap (fun x => flatten pfx inhB inhC (expand c (.iter v [x] body .nil))) := by
+  rw [C13_instance_own_variables]
+  simp [expand, flatten, Forest.append_nil]
+
+/-- An iterated TASK role: for every range and every target / alias expression, the task
+    generated for value `x` declares each `connect` entry with the target expression
+    instantiated with `x` (and its own name, its own parent), each `bind` entry with the alias
+    expression instantiated likewise; role-level entries win over inherited ones whole. -/
+theorem C13_iterated_task_target (c : Ctx) (v : String) (vals : List String) (n : Tmpl) (cls : String) (h : Nat)
+    (b : List InT) (co : List OutT) (pfx : String) (inhB : List Inbound) (inhC : List Outbound) :
+    flatten pfx inhB inhC (expand c (.iter v vals (.task n cls h b co .nil) .nil)) =
+      vals.map fun x =>
+        let ci := (c.push v x).named (n.inst (c.push v x))
+        { path := joinPath pfx (n.inst (c.push v x)), cls := cls, hostIdx := h,
+          roleBind := mergeIn (b.map (InT.inst ci)) inhB,
+          roleConnect := mergeOut (co.map (OutT.inst ci)) inhC } := by
+  rw [C13_instance_own_variables]
+  simp only [expand, flatten, List.append_nil]
+  exact flatMap_single _ _
+
+/-- An iterated AGGREGATOR role (one sub-tree per host, say): the roles below instance `x` are
+    loaded with `x` in their variable stack and with THAT instance as parent, so
+    `{{ Parent().Path }}` in a child's target is the path of the child's own instance. -/
+theorem C13_iterated_aggregator_children (c : Ctx) (v : String) (vals : List String) (n : Tmpl)
+    (b : List InT) (co : List OutT) (kids : TForest) (pfx : String) (inhB : List Inbound) (inhC : List Outbound) :
+    flatten pfx inhB inhC (expand c (.iter v vals (.agg n b co kids .nil) .nil)) =
+      (vals.flatMap fun x =>
+        let cx := c.push v x
+        let nm := n.inst cx
+        flatten (joinPath pfx nm) (mergeIn (b.map (InT.inst (cx.named nm))) inhB)
+          (mergeOut (co.map (OutT.inst (cx.named nm))) inhC) (expand (cx.child nm) kids)) ∧
+    ∀ x, Seg.inst ((c.push v x).child (n.inst (c.push v x))) .parentPath =
+          joinPath c.parentPath (n.inst (c.push v x)) ∧
+         Assoc.get ((c.push v x).child (n.inst (c.push v x))).env v = some x := by
+  refine ⟨?_, fun x => ⟨rfl, ?_⟩⟩
+  · rw [C13_instance_own_variables]
+    simp [expand, flatten]
+  · simp [Ctx.child, Ctx.push, Assoc.get]
+
+/-- The STAGE5 pass of a role reads and writes the role's own cell only. -/
+theorem C13_pass_touches_own_cell (st : List Cell) (i j : Nat) (h : j ≠ i) :
+    (modAt Cell.resolve st i)[j]? = st[j]? := by
+  rw [getElem?_modAt]; simp [h]
+
+/-- Processing order is irrelevant: whatever the order in which the generated roles' STAGE5
+    passes run (any list that names every role at least once — the sequential loader, or the
+    goroutines of the three concurrency switches in any interleaving of whole passes), every
+    role ends up holding its own instantiation, and that is what the loaded tree declares. -/
+theorem C13_resolution_order_irrelevant (c : Ctx) (f : TForest) (ord : List Nat)
+    (hall : ∀ j, j < (cells c f).length → j ∈ ord) :
+    processOrder (cells c f) ord = (cells c f).map Cell.resolve ∧
+    (processOrder (cells c f) ord).map Cell.read = ownDecls (expand c f) := by
+  have h := processOrder_all (cells c f) ord hall
+  refine ⟨h, ?_⟩
+  rw [h, ownDecls_expand, List.map_map]
+  apply List.map_congr_left
+  intro x _
+  exact Cell.resolve_read x
+
+/-- A workflow without template expressions is its own template: the template form of the
+    model extends the plain one. -/
+theorem C13_plain_workflow_is_its_own_template (f : Forest) :
+    templateDecls f.toT = flatten "" [] [] f := by
+  simp [templateDecls, expand_toT]
+
+/-- The model of load + CONFIGURE meets the template Spec — the predicate the correspondence run
+    evaluates on what the real loader and the real configureTasks did. -/
+theorem C13_model_meets_spec_template (classes : List (String × Class)) (root : TForest)
+    (launch : List (String × String × BindMap))
+    (hwf : WF (templateTasks classes root launch))
+    (hnt : noInboundTarget (templateTasks classes root launch) = true)
+    (hadv : ∀ t ∈ templateTasks classes root launch, aliasesAdvertised t) :
+    SpecT classes root launch ((templateDecls root).map TaskDecl.seen)
+      (configure (templateTasks classes root launch)) :=
+  ⟨rfl, C13_model_meets_spec _ hwf hnt hadv⟩
+
+theorem C13_model_meets_weak_spec_template (classes : List (String × Class)) (root : TForest)
+    (launch : List (String × String × BindMap)) (hwf : WF (templateTasks classes root launch)) :
+    SpecTW true true classes root launch ((templateDecls root).map TaskDecl.seen)
+      (configure (templateTasks classes root launch)) :=
+  ⟨rfl, C13_model_meets_weak_spec _ hwf⟩
+
+/-- Non-vacuity (the per-host shape): `host-{{ it }}` for it = 1..3, below each a `sink` binding
+    `data` and a `source` connecting to `{{ Parent().Path }}.sink:data`; one host per instance,
+    port 9000 everywhere. Every source is sent the address of the sink of its OWN host. -/
+example :
+    let root : TForest :=
+      .agg [.lit "root"] [] []
+        (.iter "it" ["1", "2", "3"]
+          (.agg [.lit "host-", .var "it"] [] []
+            (.task [.lit "sink"] "s" 0 [⟨"data", .default, .tcp, "", []⟩] []
+              (.task [.lit "source"] "c" 0 [] [⟨"data", .default, [.parentPath, .lit ".sink:data"]⟩] .nil))
+            .nil)
+          .nil)
+        .nil
+    let classes : List (String × Class) := [("s", ⟨[], []⟩), ("c", ⟨[], []⟩)]
+    let ep : BindMap := [("data", .tcp "*" 9000 .default)]
+    let launch : List (String × String × BindMap) :=
+      [("root.host-1.sink", "flp1", ep), ("root.host-1.source", "flp1", []),
+       ("root.host-2.sink", "flp2", ep), ("root.host-2.source", "flp2", []),
+       ("root.host-3.sink", "flp3", ep), ("root.host-3.source", "flp3", [])]
+    (templateDecls root).map (fun d => (d.path, d.roleConnect.map Outbound.target)) =
+      [("root.host-1.sink", []), ("root.host-1.source", ["root.host-1.sink:data"]),
+       ("root.host-2.sink", []), ("root.host-2.source", ["root.host-2.sink:data"]),
+       ("root.host-3.sink", []), ("root.host-3.source", ["root.host-3.sink:data"])] ∧
+    WF (templateTasks classes root launch) ∧
+    configure (templateTasks classes root launch) = .ok
+      [ [("data", ⟨.bind, "tcp://*:9000", .default⟩)], [("data", ⟨.connect, "tcp://flp1:9000", .default⟩)],
+        [("data", ⟨.bind, "tcp://*:9000", .default⟩)], [("data", ⟨.connect, "tcp://flp2:9000", .default⟩)],
+        [("data", ⟨.bind, "tcp://*:9000", .default⟩)], [("data", ⟨.connect, "tcp://flp3:9000", .default⟩)] ] ∧
+    -- the wiring in which every later instance keeps the FIRST instance's target is rejected by the Spec
+    ¬ SpecT classes root launch ((templateDecls root).map TaskDecl.seen) (.ok
+      [ [("data", ⟨.bind, "tcp://*:9000", .default⟩)], [("data", ⟨.connect, "tcp://flp1:9000", .default⟩)],
+        [("data", ⟨.bind, "tcp://*:9000", .default⟩)], [("data", ⟨.connect, "tcp://flp1:9000", .default⟩)],
+        [("data", ⟨.bind, "tcp://*:9000", .default⟩)], [("data", ⟨.connect, "tcp://flp1:9000", .default⟩)] ]) := by
   decide
